@@ -47,6 +47,22 @@ func (y yielding) GetTip() (*domains.BlockHeader, error) {
 	vh.Yield(y.max)
 	return y.Headers.GetTip()
 }
+func (y yielding) GetCurrentHeight() (int, error) {
+	vh.Yield(y.max)
+	return y.Headers.GetCurrentHeight()
+}
+func (y yielding) GetHeadersCount() (int, error) {
+	vh.Yield(y.max)
+	return y.Headers.GetHeadersCount()
+}
+func (y yielding) GetAllTips() ([]*domains.BlockHeader, error) {
+	vh.Yield(y.max)
+	return y.Headers.GetAllTips()
+}
+func (y yielding) GetHeaderByHeightRange(from int, to int) ([]*domains.BlockHeader, error) {
+	vh.Yield(y.max)
+	return y.Headers.GetHeaderByHeightRange(from, to)
+}
 
 // hashOf gives each of the two submitted headers its own arbitrary hash.
 type twoHasher struct {
@@ -192,8 +208,9 @@ func HarnessReaderDuringAdd(k int) {
 	vh.Assume(hstore.Acyclic(hashes, prevs))
 	vh.Assume(!vh.HashEq(hashA, pre[0].Prev))
 	repos := hstore.Repos(db)
-	repos.Headers = yielding{repos.Headers, 1}
+	repos.Headers = yielding{repos.Headers, 3}
 	cs := service.NewChainsService(repos, &chaincfg.Params{}, vh.Logger(), twoHasher{hashA, hashA, 1}, &countNotifier{})
+	hsvc := service.NewHeaderService(repos, nil, vh.Logger())
 	var tip *domains.BlockHeader
 	var terr error
 	var snap []hstore.H
@@ -201,8 +218,10 @@ func HarnessReaderDuringAdd(k int) {
 	vh.Interleave(
 		func() { _, _ = cs.Add(srcA) },
 		func() {
-			tip, terr = repos.Headers.GetTip()
-			snap, snapOK = hstore.Load(db) // same moment: no scheduling point in between
+			// the tip as the API and the sync engines ask for it: through the header service, whose
+			// storage calls are scheduling points like the submitter's (it may straddle them)
+			tip = hsvc.GetTip()
+			snap, snapOK = hstore.Load(db) // same moment as the reader's last storage call
 		},
 	)
 	vh.Assert("C15/reader-gets-a-tip", vh.And(terr == nil, tip != nil, snapOK))
